@@ -112,8 +112,17 @@ AllGeo(k) == IF k = 0 THEN <<>>
              ELSE Append(AllGeo(k - 1), FacesGeo(Meshes[k].verts, Meshes[k].faces, Len(Meshes[k].faces)))
 Geo == AllGeo(Len(Meshes))          \* evaluated once
 
-\* closed and consistently wound: every directed edge is matched by its reverse, with multiplicity
-DirEdges(G) == [k \in 1..(3 * Len(G)) |->
+\* A face without area (n = 0; round 2): three distinct collinear corners, the "sliver" a T-junction leaves on
+\* an edge.  It cannot be crossed through its interior; as a point set it is the segment spanned by its
+\* corners.  MeshSane demands that it lies on an edge of a face with area, so that a ray touching it touches
+\* that edge (and is degenerate already) and it is never strictly nearer than that face.
+Degenerate(g) == g.n = Zero3
+OnSeg(p, x, y) == LET e == Sub(y, x)  w == Sub(p, x) IN
+                  Cross(w, e) = Zero3 /\ Dot(w, e) >= 0 /\ Dot(w, e) <= Dot(e, e)
+\* closed and consistently wound: every directed edge of the faces with area is matched by its reverse, with
+\* multiplicity
+DirEdges(G0) == LET G == SelectSeq(G0, LAMBDA g : ~Degenerate(g)) IN
+                [k \in 1..(3 * Len(G)) |->
                    LET g == G[(k - 1) \div 3 + 1]  j == (k - 1) % 3 IN
                    IF j = 0 THEN <<g.a, g.b>> ELSE IF j = 1 THEN <<g.b, g.c>> ELSE <<g.c, g.a>>]
 Closed(G) == LET E == DirEdges(G) IN
@@ -145,12 +154,13 @@ FaceStat(g, O, k, d) ==
         nw == den - nu - nv
         sn == Dot(S, g.n)
         nt == -(sg * sn)
-        st == IF D0 = 0 THEN (IF sn # 0 \/ CoplanarClear(g, O, k, d) THEN "miss" ELSE "deg")
+        st == IF Degenerate(g) THEN "miss"
+              ELSE IF D0 = 0 THEN (IF sn # 0 \/ CoplanarClear(g, O, k, d) THEN "miss" ELSE "deg")
               ELSE IF M * nt <= -den THEN "miss"
               ELSE IF M * nu < -den \/ M * nv < -den \/ M * nw < -den THEN "miss"
               ELSE IF M * nt >= den /\ M * nu >= den /\ M * nv >= den /\ M * nw >= den THEN "hit"
               ELSE "deg" IN
-    [st |-> st, nt |-> nt, den |-> den, inplane |-> (D0 = 0 /\ sn = 0)]
+    [st |-> st, nt |-> nt, den |-> den, inplane |-> (~Degenerate(g) /\ D0 = 0 /\ sn = 0)]
 
 RECURSIVE Stats(_, _, _, _, _)
 Stats(G, n, O, k, d) == IF n = 0 THEN <<>> ELSE Append(Stats(G, n - 1, O, k, d), FaceStat(G[n], O, k, d))
@@ -173,7 +183,10 @@ InClosedTri(g, N, q) ==
     LET V == Sub(N, Scale(q, g.a))
         bc == Dot(g.np, Cross(g.e1, V))
         bb == Dot(g.np, Cross(V, g.e2)) IN
-    Dot(g.np, V) = 0 /\ bb >= 0 /\ bc >= 0 /\ q * g.pn - bb - bc >= 0
+    IF Degenerate(g)
+    THEN \E x \in {g.a, g.b, g.c} : \E y \in {g.a, g.b, g.c} :
+             x # y /\ OnSeg(N, Scale(q, x), Scale(q, y))
+    ELSE Dot(g.np, V) = 0 /\ bb >= 0 /\ bc >= 0 /\ q * g.pn - bb - bc >= 0
 
 \* reported hit h = [f |-> face (0-based), n |-> numerators, q |-> common denominator, offlattice]
 HitSound(G, O, k, d, h) ==
@@ -269,7 +282,7 @@ TriDist2(g, P, k) ==
         bc == Dot(g.np, Cross(g.e1, W))
         bb == Dot(g.np, Cross(W, g.e2))
         ba == k * g.pn - bb - bc IN
-    IF ba >= 0 /\ bb >= 0 /\ bc >= 0
+    IF ~Degenerate(g) /\ ba >= 0 /\ bb >= 0 /\ bc >= 0
     THEN LET h == Dot(g.np, W) IN RNorm(h * h, k * k * g.npn)
     ELSE RMin(SegDist2(g.a, g.b, P, k), RMin(SegDist2(g.b, g.c, P, k), SegDist2(g.c, g.a, P, k)))
 
@@ -337,7 +350,15 @@ Report == LET c == Cases[i]  cl == Clause(c)
 MeshSane(mi) ==
     LET me == Meshes[mi]  G == Geo[mi] IN
     /\ Len(G) >= 1 /\ Len(me.verts) >= 3
-    /\ \A f \in 1..Len(G) : G[f].n # Zero3
+    /\ \E f \in 1..Len(G) : ~Degenerate(G[f])
+    /\ \A f \in 1..Len(G) :
+          Degenerate(G[f]) =>
+             LET g == G[f] IN
+             /\ g.a # g.b /\ g.b # g.c /\ g.a # g.c
+             /\ \E h \in 1..Len(G) :
+                   /\ ~Degenerate(G[h])
+                   /\ \E e \in {<<G[h].a, G[h].b>>, <<G[h].b, G[h].c>>, <<G[h].c, G[h].a>>} :
+                         \A p \in {g.a, g.b, g.c} : OnSeg(p, e[1], e[2])
     /\ me.closed = Closed(G)
     /\ me.closed => Vol6(G, Len(G)) > 0
     /\ \A f \in 1..Len(G) :
